@@ -824,7 +824,7 @@ pub fn run(tape: &mut Tape, props: Props, thorough: bool, trace_on: bool, force:
     }
     let p6 = if medium == Medium::Ip { v6(2, false) } else { v6(2, true) };
     let mut node = build_node(&cfg);
-    let view = cfg.view();
+    let mut view = cfg.view();
     // ---- sockets
     let mk_tcp = || tcp::Socket::new(tcp::SocketBuffer::new(vec![0; 1024]), tcp::SocketBuffer::new(vec![0; 1024]));
     let mut listener = mk_tcp();
@@ -874,6 +874,8 @@ pub fn run(tape: &mut Tape, props: Props, thorough: bool, trace_on: bool, force:
     node.sockets.add(d);
     if medium == Medium::Ethernet {
         node.sockets.add(dhcpv4::Socket::new());
+        // nobody applies the leases the adversary hands out in this scenario
+        view.dhcp_unmanaged = true;
     }
     if medium == Medium::Ethernet || medium == Medium::Ip {
         if tape.draw(2) == 0 {
